@@ -28,6 +28,7 @@ func vxHitStep(withOrigin bool, kinds []int) {
 
 	kind := -1
 	var sent *http.Response
+	var vo *vxOriginRespT
 	vstatus := 0
 	w.origin.script = func(n int, r *http.Request) (*http.Response, error) {
 		vxCover("hit/origin-contacted")
@@ -47,6 +48,11 @@ func vxHitStep(withOrigin bool, kinds []int) {
 		case 1: // full cacheable reply
 			vstatus = 200
 			sent = &http.Response{StatusCode: 200, Header: http.Header{"Date": []string{d}, "Cache-Control": []string{"max-age=60"}, vxTagHeader: []string{"origin"}}, Body: &vxBodyT{tag: 2}}
+		case 4: // arbitrary full reply (any final status but 304, any directives, body may fail)
+			vo = vxOriginResp("vo", 200, 599)
+			vxAssume(vo.status != 304)
+			vstatus = vo.status
+			sent = vo.resp
 		case 2: // error status, possibly with its own stale-if-error
 			vstatus = vxInt("v.status", 400, 599)
 			sent = &http.Response{StatusCode: vstatus, Header: http.Header{"Date": []string{d}, vxTagHeader: []string{"origin"},
@@ -98,6 +104,15 @@ func vxHitStep(withOrigin bool, kinds []int) {
 		vxAssert(vxAnd(q.onlyIfCached, resp.StatusCode == 504), "C18/504-only-under-only-if-cached")
 	}
 
+	// ---- C06: what must not be stored never reaches the store (validation path)
+	if w.conn.count("set") > 0 {
+		vxCover("hit/stored")
+		vxAssert(calls >= 1 && kind != 0 && kind != 3, "C06/stored-without-full-origin-reply")
+		if vo != nil {
+			vxAssert(!vxMustNotStore(vo, q.noStore, true), "C06/stored-what-must-not-be-stored")
+		}
+	}
+
 	// ---- C02: responses that require validation are never reused unvalidated
 	respNoCacheUnq := vxAnd(x.cc.noCache, !x.cc.noCacheQualified)
 	_, qMaxHi, qMaxOK := vxDeltaSpec(q.maxAgeStr)
@@ -106,7 +121,7 @@ func vxHitStep(withOrigin bool, kinds []int) {
 	validated := calls >= 1 && kind == 0
 	if fromStore {
 		vxAssert(vxImplies(strict, validated), "C02/reused-unvalidated-despite-no-cache-or-must-revalidate")
-		failure := vxOr(kind == 3, vxAnd(kind == 2, vxIsSIEStatus(vstatus)))
+		failure := vxOr(kind == 3, vxAnd(kind == 2 || kind == 4, vxIsSIEStatus(vstatus)))
 		vxAssert(vxImplies(exceeds, vxOr(validated, vxAnd(calls >= 1, failure))), "C02/reused-unvalidated-despite-request-max-age")
 		if calls == 0 && x.cc.noCacheQualified {
 			_, has := resp.Header["X-A"]
@@ -135,6 +150,9 @@ func vxHitStep(withOrigin bool, kinds []int) {
 	// ---- C13: stale-if-error window
 	if calls >= 1 && kind >= 2 {
 		failure := vxOr(kind == 3, vxIsSIEStatus(vstatus))
+		if kind == 4 {
+			// an arbitrary reply may carry stale-if-error etc.; the error-reply placement is covered by kind 2
+		}
 		_, sieHiR, sieOKR := vxDeltaSpec(x.cc.sieStr)
 		sieLoR, _, _ := vxDeltaSpec(x.cc.sieStr)
 		_, sieHiQ, sieOKQ := vxDeltaSpec(q.sieStr)
@@ -218,6 +236,9 @@ func vxRoundTrip(rt http.RoundTripper, req *http.Request) (resp *http.Response, 
 
 func VxB_HitNoOrigin() { vxHitStep(false, nil) }
 func VxB_HitStep()     { vxHitStep(true, []int{0, 1, 2, 3}) }
+
+// VxB_HitStore: the validation request is answered by an arbitrary full reply: C06, C19.
+func VxB_HitStore() { vxHitStep(true, []int{4}) }
 
 // VxB_HitFail: the validation fails (error status or transport error): C13.
 func VxB_HitFail() { vxHitStep(true, []int{2, 3}) }
